@@ -2,7 +2,10 @@
   C07 — Compaction never changes what a read at or above the compaction revision sees.
   Model: the worker loop with `compact = true` (KB.Scan.workerActs) and the execution of its delete
   actions against the live store under an arbitrary failure mask (KB.Scan.runDeletes). A crash after
-  n deletions is the mask that fails every call from n on.
+  n deletions is the mask that fails every call from n on. The mask is arbitrary: every delete call —
+  plain (`compactKey`) or compare-and-delete (`compactCurrent`) — may succeed, fail, or fail with an
+  error of the failed-condition class (`storage.ErrCASFailed`; the TiKV adapter reports a write
+  conflict that way, for a plain delete too).
 -/
 import KB.Lemmas.Compact
 namespace KB.C07
@@ -17,10 +20,6 @@ def deleted (R : Nat) (mask : Nat → DelOutcome) (recs : List Rec) : List Bytes
 /-- The decoded store after the pass. -/
 def after (R : Nat) (mask : Nat → DelOutcome) (recs : List Rec) : List Rec :=
   recs.filter (fun r => !(deleted R mask recs).contains r.ik)
-
-/-- A failure mask in which unconditional deletes never fail with a *condition* error (the engine
-contract for `Del`); every other pattern of failures — and hence every crash point — is allowed. -/
-def NoCasOnDel (mask : Nat → DelOutcome) : Prop := ∀ i, mask i ≠ .failCas
 
 
 /-- the store after the pass -/
@@ -52,16 +51,14 @@ theorem empty_key_resurrects :
     scanRecs 9 recs = [] ∧ scanRecs 9 (after 8 mask recs) = [([], [1], 3)] := by
   decide
 
-theorem empty_key_mask_noCas : NoCasOnDel (fun i => if i = 0 then .fail else .ok) := by
-  intro i; show (if i = 0 then DelOutcome.fail else DelOutcome.ok) ≠ _; split <;> simp
-
-/-- Main theorem: whatever deletions succeed, fail, or are cut short, every read at every
+/-- Main theorem: whatever deletions succeed, fail (with whatever class of error, on whichever kind of
+delete call — `mask` is arbitrary), or are cut short, every read at every
 revision ≥ R of every key returns exactly what it returned before. (`hne`: raw keys are non-empty —
 for the empty raw key the statement is FALSE, see `empty_key_resurrects`: the
 `len(lastCompactFailedRawKey) > 0` guard never fires for it.) -/
 theorem compact_preserves_reads {recs : List Rec} (hs : SortedRecs recs) (hw : WellKeyed recs)
     (hk : ∀ r ∈ recs, Alphabet r.key ∧ r.rev < 2 ^ 64) (hne : ∀ r ∈ recs, r.key ≠ [])
-    (R : Nat) (mask : Nat → DelOutcome) (hm : NoCasOnDel mask) (R' : Nat) (hR : R ≤ R') (k : Bytes) :
+    (R : Nat) (mask : Nat → DelOutcome) (R' : Nat) (hR : R ≤ R') (k : Bytes) :
     readAt R' (after R mask recs) k = readAt R' recs k := by
   have hkeep : ∀ d ∈ recs, (!(deleted R mask recs).contains d.ik) = false ↔
       (finalStore R mask recs).get d.ik = none := by
@@ -74,15 +71,15 @@ theorem compact_preserves_reads {recs : List Rec} (hs : SortedRecs recs) (hw : W
     exact compact_deletable hs hw hk R mask hd ((hkeep d hd).1 hkd)
   · intro t ht hkt htomb hpos w hw' hwk h0 hlt
     rw [hkeep w hw']
-    exact compact_tombClosed hs hw hk hne R hm t ht ((hkeep t ht).1 hkt) htomb hpos w hw' hwk h0 hlt
+    exact compact_tombClosed hs hw hk hne R mask t ht ((hkeep t ht).1 hkt) htomb hpos w hw' hwk h0 hlt
 
 /-- Range form of the same statement. -/
 theorem compact_preserves_scan {recs : List Rec} (hs : SortedRecs recs) (hw : WellKeyed recs)
     (hk : ∀ r ∈ recs, Alphabet r.key ∧ r.rev < 2 ^ 64) (hne : ∀ r ∈ recs, r.key ≠ [])
-    (R : Nat) (mask : Nat → DelOutcome) (hm : NoCasOnDel mask) (R' : Nat) (hR : R ≤ R') :
+    (R : Nat) (mask : Nat → DelOutcome) (R' : Nat) (hR : R ≤ R') :
     scanRecs R' (after R mask recs) = scanRecs R' recs :=
   scan_filter_of_readAt hs _ R'
-    (fun k => compact_preserves_reads hs hw hk hne R mask hm R' hR k)
+    (fun k => compact_preserves_reads hs hw hk hne R mask R' hR k)
 
 /-- Only records at or below R are ever removed, and a removed version is either superseded by a
 newer version ≤ R of the same key or is a deletion marker / a deleted key's index record. -/
@@ -108,15 +105,60 @@ theorem live_key_untouched {recs : List Rec} (hs : SortedRecs recs) (hw : WellKe
     · exact h2 h
     · have := h3 r' hr' hkey; omega
 
-/-- With a CAS error on an unconditional delete the property is FALSE of the loop (documented engine
-assumption): the older version's delete "fails" without being remembered, the tombstone goes, and the
-deleted key reappears. -/
-theorem cas_on_del_resurrects :
+/-! ### the pre-fix behaviour (before "fix: a failed delete of a version always stops the compaction
+of that key"): `compactKey` went through `updateSkippedRawKey` like `compactCurrent` does -/
+
+/-- `runDelete` as the code was BEFORE the fix: a plain delete failing with an error of the
+failed-condition class is not applied and its raw key is NOT remembered. Every other arm is
+`runDelete`'s. -/
+def runDeleteOld (mask : Nat → DelOutcome) (st : CompState) : Act → CompState
+  | .del ik raw =>
+    if st.lastFailed.length > 0 && st.lastFailed == raw then st
+    else match mask st.calls with
+      | .failCas => { st with calls := st.calls + 1, trace := st.trace ++ [(false, ik)] }
+      | _ => runDelete mask st (.del ik raw)
+  | a => runDelete mask st a
+
+/-- the decoded store after a pass executed with `runDeleteOld` -/
+def afterOld (R : Nat) (mask : Nat → DelOutcome) (recs : List Rec) : List Rec :=
+  let st := (workerActs { R := R, compact := true } recs).foldl (runDeleteOld mask) { store := encodeStore recs }
+  recs.filter (fun r => (st.store.get r.ik).isSome)
+
+/-- the two executions differ in nothing but the `.del` / `.failCas` arm -/
+theorem runDeleteOld_eq {mask : Nat → DelOutcome} {st : CompState} {a : Act}
+    (h : mask st.calls ≠ .failCas ∨ ∀ ik raw, a ≠ .del ik raw) :
+    runDeleteOld mask st a = runDelete mask st a := by
+  cases a with
+  | del ik raw =>
+    rcases h with h | h
+    · simp only [runDeleteOld, runDelete]
+      split
+      · rfl
+      · cases hmc : mask st.calls <;> simp_all
+    · exact absurd rfl (h ik raw)
+  | emit k v r => rfl
+  | delcur ik v raw => rfl
+  | panic => rfl
+
+/-- Witness for the fix. The plain delete of the older version fails with a failed-condition error (a
+TiKV write conflict). Pre-fix (`runDeleteOld`): the failure is not remembered, the deletion marker above
+goes, and the deleted key REAPPEARS — in the point read and in the range read. With `runDelete` (the code
+as it is) the same mask stops the compaction of that key: nothing of it is removed, reads are unchanged. -/
+theorem cas_on_del_resurrected_before_fix :
     let recs : List Rec :=
       [ { key := [47, 97], rev := 3, val := [1], ik := encode [47, 97] 3 },
         { key := [47, 97], rev := 7, val := tombstone, ik := encode [47, 97] 7 } ]
     let mask : Nat → DelOutcome := fun i => if i = 0 then .failCas else .ok
-    readAt 9 recs [47, 97] = none ∧ readAt 9 (after 8 mask recs) [47, 97] = some ([1], 3) := by
+    SortedRecs recs ∧ WellKeyed recs ∧ (∀ r ∈ recs, Alphabet r.key ∧ r.rev < 2 ^ 64) ∧
+    (∀ r ∈ recs, r.key ≠ []) ∧
+    -- before the pass: the key is deleted
+    readAt 9 recs [47, 97] = none ∧ scanRecs 9 recs = [] ∧
+    -- pre-fix: it reappears
+    readAt 9 (afterOld 8 mask recs) [47, 97] = some ([1], 3) ∧
+    scanRecs 9 (afterOld 8 mask recs) = [([47, 97], [1], 3)] ∧
+    -- now: unchanged (and nothing of the key was removed)
+    readAt 9 (after 8 mask recs) [47, 97] = none ∧ scanRecs 9 (after 8 mask recs) = [] ∧
+    after 8 mask recs = recs := by
   decide
 
 /-! Non-vacuity -/
@@ -130,5 +172,15 @@ def exRecs : List Rec :=
 example : SortedRecs exRecs ∧ WellKeyed exRecs := by decide
 example : (after 8 (fun _ => .ok) exRecs).map (fun r => (r.key, r.rev)) = [([47, 98], 0), ([47, 98], 5)] := by decide
 example : (after 8 (fun i => if i = 0 then .fail else .ok) exRecs).length = 5 := by decide
+/-- a mask mixing all three outcomes on both kinds of delete call: the compare-and-delete of `/a`'s index
+record (call 0) and the plain delete of `/b`'s superseded version (call 3) fail with a failed-condition
+error, the plain delete of `/a`'s marker (call 2) fails otherwise -/
+def mixedMask : Nat → DelOutcome := fun i => if i = 0 ∨ i = 3 then .failCas else if i = 2 then .fail else .ok
+example : (runDeletes mixedMask { store := encodeStore exRecs } (workerActs { R := 8, compact := true } exRecs)).trace.map (·.1)
+    = [true, false, false, false] := by decide
+example : (after 8 mixedMask exRecs).map (fun r => (r.key, r.rev)) =
+    [([47, 97], 0), ([47, 97], 7), ([47, 98], 0), ([47, 98], 4), ([47, 98], 5)] := by decide
+example (R' : Nat) (hR : 8 ≤ R') (k : Bytes) : readAt R' (after 8 mixedMask exRecs) k = readAt R' exRecs k :=
+  compact_preserves_reads (by decide) (by decide) (by decide) (by decide) 8 mixedMask R' hR k
 
 end KB.C07
